@@ -174,6 +174,13 @@ func DecodeVal(raw string) Val {
 // increasing and the rows must be non-decreasing in the index columns by the
 // documented value order.
 func readIndex(rt *db19.ReadTran, ts *schema.Schema, i int) (rows []string, total int64, problem string) {
+	rows, _, total, problem = readIndexRaw(rt, ts, i, false)
+	return
+}
+
+// readIndexRaw is readIndex that can also return the raw stored records
+// (sorted).
+func readIndexRaw(rt *db19.ReadTran, ts *schema.Schema, i int, wantRaw bool) (rows, raw []string, total int64, problem string) {
 	ix := &ts.Indexes[i]
 	it := rt.IndexIter(ts.Table, i)
 	prevKey, first := "", true
@@ -190,6 +197,9 @@ func readIndex(rt *db19.ReadTran, ts *schema.Schema, i int) (rows []string, tota
 		seen[off] = true
 		rec := rt.GetRecord(off)
 		total += int64(rec.Len())
+		if wantRaw {
+			raw = append(raw, string(rec))
+		}
 		get := func(col string) Val {
 			j := slices.Index(ts.Columns, col)
 			if j < 0 {
@@ -222,7 +232,8 @@ func readIndex(rt *db19.ReadTran, ts *schema.Schema, i int) (rows []string, tota
 		}
 	}
 	sort.Strings(rows)
-	return rows, total, problem
+	sort.Strings(raw)
+	return rows, raw, total, problem
 }
 
 func cmpTuple(a, b []Val) int {
